@@ -12,14 +12,20 @@ import (
 // zzSmallSchema: a schema whose shortest valid queries are 3 bytes long, so
 // that arbitrary short byte strings reach validation and execution.
 func zzSmallSchema() Schema {
-	obj := NewObject(ObjectConfig{Name: "O", Fields: Fields{
-		"a": &Field{Type: String, Resolve: func(p ResolveParams) (interface{}, error) { return "x", nil }},
-	}})
+	var obj *Object
+	obj = NewObject(ObjectConfig{Name: "O", Fields: FieldsThunk(func() Fields {
+		return Fields{
+			"a": &Field{Type: String, Resolve: func(p ResolveParams) (interface{}, error) { return "x", nil }},
+			"o": &Field{Type: obj, Resolve: func(p ResolveParams) (interface{}, error) { return 1, nil }},
+		}
+	})})
 	q := NewObject(ObjectConfig{Name: "Q", Fields: Fields{
 		"a": &Field{Type: String, Resolve: func(p ResolveParams) (interface{}, error) { return "x", nil }},
 		"b": &Field{Type: Int, Args: FieldConfigArgument{"a": &ArgumentConfig{Type: Int}},
 			Resolve: func(p ResolveParams) (interface{}, error) { return p.Args["a"], nil }},
 		"o": &Field{Type: obj, Resolve: func(p ResolveParams) (interface{}, error) { return 1, nil }},
+		"f": &Field{Type: Float, Args: FieldConfigArgument{"x": &ArgumentConfig{Type: Float}},
+			Resolve: func(p ResolveParams) (interface{}, error) { return p.Args["x"], nil }},
 	}})
 	s, err := NewSchema(SchemaConfig{Query: q})
 	if err != nil {
@@ -225,6 +231,16 @@ var zzNasty = []string{
 	"{b(a:1,a:2)}",
 	"{o{a a:__typename}}",
 	"",
+	"{ o{...F} } fragment F on O{ a o{...F} }",
+	"{ ...F } fragment F on Q{ a o{ o{ ...G } } } fragment G on O{ a o{ ...G } }",
+	"{ o{a} o }",
+	"{ ...F o } fragment F on Q{ o{a} }",
+	"{ o o{a} }",
+	"{ o{ o{a} o } }",
+	"{ a{x} a }",
+	"{ o{a}{a} }",
+	"query($a:Int){ b(a:$a) b(a:1) }",
+	"query($x:Float){ f(x:$x) }",
 }
 
 // ZZ_C09_unvalidated: parsed but unvalidated documents handed directly to
@@ -251,7 +267,7 @@ func ZZ_C09_unvalidated() {
 			vr := ValidateDocument(&schema, doc, nil)
 			zzAssert(vr.IsValid == (len(vr.Errors) == 0), "ValidateDocument: IsValid iff no errors")
 		case 1:
-			r := Execute(ExecuteParams{Schema: schema, AST: doc, OperationName: opName})
+			r := Execute(ExecuteParams{Schema: schema, AST: doc, OperationName: opName, Args: zzC09Vars(si)})
 			zzCheckResult(r, "Execute")
 		case 2:
 			plan, err := PlanQuery(&schema, doc, opName)
@@ -278,4 +294,29 @@ func ZZ_C09_unvalidated() {
 		}
 	})
 	zzCover("end")
+}
+
+// zzC09Vars: variable maps for the documents that declare variables.
+func zzC09Vars(si int) map[string]interface{} {
+	if zzContains2(zzNasty[si], "$x:Float") {
+		switch zzChoice("fvar", 4) {
+		case 0:
+			return map[string]interface{}{"x": "Inf"}
+		case 1:
+			return map[string]interface{}{"x": "NaN"}
+		case 2:
+			return map[string]interface{}{"x": "-Infinity"}
+		}
+		return map[string]interface{}{"x": 1.5}
+	}
+	return nil
+}
+
+func zzContains2(s, sub string) bool {
+	for i := 0; i+len(sub) <= len(s); i++ {
+		if s[i:i+len(sub)] == sub {
+			return true
+		}
+	}
+	return false
 }
